@@ -57,7 +57,8 @@ def gen_plan(rng, tier, index):
         events += [l] * rng.randint(1, 3)
     rng.shuffle(events)
     plan = {'mode': mode, 'shape': shape, 'bits': bits, 'radius': rng.pick(RADII), 'threshold': rng.pick(THRESH),
-            'events': events, 'method': rng.pick(['euclidean', 'correlation']),
+            'events': events, 'method': rng.pick(['euclidean', 'correlation', 'euclidean', 'correlation', 'mahalanobis', 'crossnobis', 'poisson']),
+            'mask_dtype': rng.pick(['bool', 'bool', 'int8', 'float64', 'int64']), 'events_as': rng.pick(['list', 'array']),
             'sched': {'n_jobs': rng.pick([1, 2, 3, 4, 8, 16, -1]), 'batch': rng.randint(1, 4),
                       'policy': rng.pick(['random', 'random', 'lifo', 'fifo']),
                       'straggler': rng.pick([None, None, 0, 1, 5]), 'seed': rng.randrange(10 ** 9)},
@@ -179,6 +180,16 @@ def check_geometry(ctx, mask, radius, threshold, tag=''):
 
 
 def ref_rdm(data, cols, events, method):
+    if method not in ('euclidean', 'correlation'):
+        # the other measures: the RDM "computed directly from the data columns of that searchlight" is calc_rdm on that
+        # one searchlight (calc_rdm itself is another property's primitive); None if the measure is undefined for the data
+        from rsatoolbox.data import Dataset
+        from rsatoolbox.rdm import calc_rdm
+        try:
+            one = Dataset(np.asarray(data[:, cols]), obs_descriptors={'events': np.asarray(events)})
+            return np.asarray(calc_rdm(one, method=method, descriptor='events').dissimilarities)[0]
+        except Exception:
+            return None
     ev = np.asarray(events)
     labs = sorted(set(events))
     sub = np.asarray(data[:, cols], dtype=float)
@@ -202,6 +213,10 @@ def check_rdms(ctx, data, centers, neighbors, events, method):
     try:
         sl = get_searchlight_RDMs(data, centers, neighbors, events, method=method, verbose=False)
     except Exception as e:
+        if method not in ('euclidean', 'correlation') and any(
+                ref_rdm(data, np.asarray(nb).ravel(), events, method) is None for nb in list(neighbors)[:50]):
+            ctx.probe('measure_undefined_for_data_not_judged')
+            return None
         ctx.violation('sl_ref.rdm', f'get_searchlight_RDMs:raises:{type(e).__name__}',
                       f'get_searchlight_RDMs raised {type(e).__name__}: {e} ({len(centers)} centres, method {method})')
         return None
@@ -217,6 +232,9 @@ def check_rdms(ctx, data, centers, neighbors, events, method):
     d = np.asarray(sl.dissimilarities)
     for i in range(n):
         exp = ref_rdm(data, np.asarray(neighbors[i]).ravel(), events, method)
+        if exp is None:
+            ctx.probe('measure_undefined_for_data_not_judged')
+            continue
         tol = 1e-4 if data.dtype == np.float32 else 1e-9      # float32 input: the library may compute in single precision
         if d[i].shape != exp.shape or not np.allclose(d[i], exp, rtol=tol, atol=tol, equal_nan=True):
             ctx.violation('sl_ref.rdm', 'get_searchlight_RDMs:values' + (':chunked' if n > 1000 else ''),
@@ -264,6 +282,8 @@ def execute(plan, ctx):
         return
     events = plan['events']
     n_obs = len(events)
+    if plan.get('events_as') == 'array':
+        events = np.array(events)
     if mode == 'chunk':
         n, V = plan['n_centers_big'], plan['n_vox_big']
         data = _data(n_obs, V, plan.get('dtype', 'float64'))
@@ -273,7 +293,7 @@ def execute(plan, ctx):
         ctx.behaviour('chunk', n, plan['method'], V, plan.get('dtype', 'float64'))
         return
     shape = plan['shape']
-    mask = np.array(plan['bits']).reshape(shape).astype(bool)
+    mask = np.array(plan['bits']).reshape(shape).astype(plan.get('mask_dtype', 'bool'))      # "binary brain mask": True/False or 0/1
     lay = plan.get('mask_layout', 'C')
     if lay == 'F':
         mask = np.asfortranarray(mask)                      # same values, Fortran memory order
